@@ -50,10 +50,10 @@ Example no_signature_no_effect :
               XEvidence 1 (XTx 500 (expected_calldata (mk_body b1) 1 0 vs1 []) 1); XAttest 1 (Some [])]) = ([], [], [500]).
 Proof. vm_compute. reflexivity. Qed.
 
-(** the end-blocker loop stops at the first non-nil result: message 1 fails its receipt (flushed,
-    error returned), message 2 is not looked at in this block *)
-Example endblock_stops_at_first_error :
+(** the end-blocker loop goes on after a failing message: message 1 fails its receipt (flushed,
+    error logged), message 2 is still attested in the same block and accepted *)
+Example endblock_continues_after_an_error :
   let s := play [XEnqueue b1; XValset 1 4; XSign 1 (11, 21); XEvidence 1 (XTx 500 d1 0);
                  XEnqueue b1; XValset 2 4; XSign 2 (11, 23); XEvidence 2 (XTx 501 d2 1); XEndBlock []] in
-  proj s = ([], [2], [500]).
+  proj s = ([(2, 501, 1%nat)], [], [501; 500]).
 Proof. vm_compute. reflexivity. Qed.
